@@ -25,14 +25,20 @@ dst = os.path.join("/verif/seeded", name)
 os.makedirs(dst, exist_ok=True)
 meta = json.load(open(os.path.join(wt, "SEED", "meta.json")))
 pkg = meta.get("demo_pkg", ".")
-shutil.copy(os.path.join(wt, "SEED", "patch.diff"), dst)
-shutil.copy(os.path.join(wt, "SEED", "zz_seed_demo_test.go"), dst)
+for fn in ("patch.diff", "zz_seed_demo_test.go"):
+    try:
+        shutil.copy(os.path.join(wt, "SEED", fn), dst)
+    except shutil.SameFileError:
+        pass  # re-check of a stored seed: <wt>/SEED is /verif/seeded/<name> itself
 ran = []
 scratch = "/tmp/sw_" + name
 vcopy = "/tmp/vs_" + name
 sh("git -C /repo worktree remove --force %s" % scratch, "/")
 shutil.rmtree(vcopy, ignore_errors=True)
 rc, out = sh("git -C /repo worktree add --detach %s HEAD" % scratch, "/")
+assert rc == 0, out
+# scratch copy of /verif, taken now (later edits to /verif do not disturb this run)
+rc, out = sh("rsync -a --exclude .git --exclude replays --exclude '.work/C*' --exclude '.work/abs*' --exclude '.work/sc*' /verif/ %s/" % vcopy, "/")
 assert rc == 0, out
 reports = {}
 try:
@@ -48,8 +54,6 @@ try:
     rc2, out2 = sh("go test -vet=off -count=1 -timeout 25m ./...", scratch, timeout=2400)
     ran.append({"cmd": "existing suite with the change", "rc": rc2, "tail": out2[-400:]})
     # our checks, from a scratch copy of /verif, against the patched scratch worktree
-    rc, out = sh("rsync -a --exclude .git --exclude replays --exclude '.work/C*' --exclude '.work/abs*' /verif/ %s/" % vcopy, "/")
-    assert rc == 0, out
     env = dict(ENV, VERIF_REPO=scratch)
     for p in pids:
         rc3, out3 = sh("./check %s" % p, vcopy, timeout=3000, env=env)
